@@ -24,7 +24,7 @@ Definition arr_arms : list arm := [
   mkArm (MSemi MVx FSExpr MVN FSTy)
         (ConstItem CInputLength (Usize (MV MVN))
           (LocalFn true (CRef CInputLength)
-             (Call FConstTransmute (Some TyParamN) (SCons Param SNil))
+             (UnsafeBlk (Call FConstTransmute (Some TyParamN) (SCons Param SNil)))
              (Call FLocal (Some (MV MVN))
                 (SCons (ArrayRepeat (MV MVx) (CRef CInputLength)) SNil))));
   (* ($x:expr; $n:expr) => ( $crate::GenericArray::from_array([$x; $n]) ); *)
